@@ -92,6 +92,29 @@ CLAIMS = {
              "One known finding (multi-job permutation sampling). Not decided: order-insensitivity of cost pruning, validity of full runs per layout.",
         note="Calls through stored Arc<dyn Fn> feature closures are not followed; ties between equal costs may resolve differently.",
         ref="DESIGN.md §5 C15"),
+    "C16": dict(
+        technique="sibling-agreement def-use analysis over all TransportCost impls (field roles, index shape) + rejecting-exit inventory",
+        text="All routing providers agree structurally: duration methods read only duration data and apply the profile scale, distance methods read only "
+             "distance data unscaled, fallbacks match the method; the pragmatic reader feeds MatrixData from the right matrix fields; every provider indexes "
+             "from*size+to; constructors keep their confirmed rejecting checks; unreachable entries become negative in both vectors. Not decided: "
+             "interpolation values, bracketing, symmetry of the coordinate approximation.",
+        note="Per-constructor minimal counts of rejecting exits are a reasoned table; local names durations/distances act as role declarations.",
+        ref="DESIGN.md §5 C16"),
+    "C17": dict(
+        technique="kind (position vs node) flow analysis, edge-dominance gates, per-iteration must-pass pairing, comparator def-use",
+        text="Narrow clauses: LKH never confuses path positions with node ids and rebuilds from the given start node; only paths validated by try_path "
+             "(length gate + visited check) are returned and only for strictly positive gain; DBSCAN marks points Clustered before every push and skips "
+             "clustered points; k-medoids returns assignments to the nearest medoid. Not decided: termination/optimality numerics, density-reachability, "
+             "`no core point left unclustered`, convergence.",
+        note="One genuine defect repaired (start node, fix: a2d54db).",
+        ref="DESIGN.md §5 C17"),
+    "C19": dict(
+        technique="insertion-site key/coordinate source agreement, field-store scan, edge-dominance, flag evaluation by abstract interpretation, phase-rank analysis",
+        text="Narrow clauses: the node map is private and every insertion keys a node by its own coordinate; coordinates are rewritten only in the contraction "
+             "remap; compaction removes nodes only when four remain, re-trains with is_new_input=false, and Network::update (evaluated over the flag) cannot "
+             "reach grow_nodes without new input; population phases only move forward. Not decided: finiteness of weights/errors, capacity, lookup, elite bounds.",
+        note="Phase ranks are taken from the enum declaration order (re-confirmed on change).",
+        ref="DESIGN.md §5 C19"),
 }
 
 NOT_APPLICABLE = {
